@@ -754,6 +754,16 @@ fn abort_error(tcb: &Tcb) -> Option<Error> {
 
 fn abort_with(k: &mut Kernel, fd: Fd, reason: AbortReason) {
     let st = k.lookup_mut(fd).unwrap();
+    // A socket still in `SynReceived` is a listener's child that was never
+    // handed to the application (`accept` only returns established
+    // connections). Nobody holds an fd for it, so nobody will ever close it:
+    // reclaim it right here instead of leaving a terminal entry (and its
+    // 4-tuple) in the table forever.
+    let unaccepted_child = st
+        .tcb
+        .as_ref()
+        .map(|t| t.state == TcpState::SynReceived)
+        .unwrap_or(false);
     if let Some(tcb) = st.tcb.as_mut() {
         tcb.state = TcpState::Closed;
         match reason {
@@ -768,6 +778,9 @@ fn abort_with(k: &mut Kernel, fd: Fd, reason: AbortReason) {
     }
     st.wake_read();
     st.wake_write();
+    if unaccepted_child {
+        k.sockets.remove(fd);
+    }
 }
 
 /// Find a listening socket bound to `local` (or the matching wildcard).
